@@ -18,8 +18,12 @@ use std::collections::BTreeMap;
 
 #[derive(Default, Debug)]
 struct St {
-    /// (t, code) of the first RST_STREAM the peer sent that E has read
+    /// (t, code) of the first RST_STREAM the peer sent that E's transport has read
     peer_rst: Option<(u64, u32)>,
+    /// first hook-H2 snapshot in which the stream's state is "reset by the remote": from then on the library has
+    /// certainly processed the frame (bytes the transport has read may sit unprocessed in the codec's buffer
+    /// while the application acts first, e.g. poll_accept returns before the rest of the buffer is looked at)
+    peer_rst_effective: Option<u64>,
     /// (t, code) of RST_STREAM frames E wrote
     e_rst: Vec<(u64, u32)>,
     /// (t, code) of successful send_reset calls by E's application
@@ -54,6 +58,15 @@ pub fn check_endpoint(v: &View, e: Side, quiescent: bool, viol: &mut Vec<Violati
             EvK::Fault { .. } | EvK::IoDropped { .. } => {
                 conn_failed_at.get_or_insert(ev.t);
             }
+            EvK::SnapFact { side, what: "remote_reset_processed", v: sid } if *side == e => {
+                // the library's own state shows the peer's reset: from here on every handle must report it
+                let sid = *sid as u32;
+                let s = st.entry(sid).or_default();
+                if s.peer_rst.is_some() && s.peer_rst_effective.is_none() {
+                    s.peer_rst_effective = Some(ev.t);
+                    s.other_cause_before_peer_rst = conn_failed_at.is_some() || !s.e_rst.is_empty() || s.user_reset.is_some() || peer_goaway.map(|(_, last, _)| sid > last && (sid % 2 == 1) != e_is_server).unwrap_or(false);
+                }
+            }
             EvK::W { dir, idx } if *dir == ed => {
                 let f = v.frame(*dir, *idx);
                 match &f.body {
@@ -68,7 +81,7 @@ pub fn check_endpoint(v: &View, e: Side, quiescent: bool, viol: &mut Vec<Violati
                                     stats.inc("c17.user_reset_codes_compared");
                                     // a peer reset processed before the user's call makes the call a no-op; a library
                                     // reaction (STREAM_CLOSED etc.) may then still go out
-                                    let peer_first = s.peer_rst.map(|(tp, _)| tp < tu).unwrap_or(false);
+                                    let peer_first = s.peer_rst.map(|(tp, _)| tp < tu).unwrap_or(false); // (transport read is enough here: resolved in E's favour)
                                     if c != *code && !peer_first {
                                         fail(viol, "rst-code-differs-from-callers".into(), format!("{}: send_reset({}) on stream {} at t={} but the RST_STREAM written at t={} carries code {}", e.name(), c, f.sid, tu, ev.t, code));
                                     }
@@ -103,7 +116,6 @@ pub fn check_endpoint(v: &View, e: Side, quiescent: bool, viol: &mut Vec<Violati
                         let s = st.entry(f.sid).or_default();
                         if s.peer_rst.is_none() {
                             s.peer_rst = Some((ev.t, *code));
-                            s.other_cause_before_peer_rst = conn_failed_at.is_some() || !s.e_rst.is_empty() || s.user_reset.is_some() || peer_goaway.map(|(_, last, _)| f.sid > last && (f.sid % 2 == 1) != e_is_server).unwrap_or(false);
                         }
                     }
                     Body::GoAway { last, code, .. } => {
@@ -146,8 +158,8 @@ pub fn check_endpoint(v: &View, e: Side, quiescent: bool, viol: &mut Vec<Violati
                             }
                             (_, Res::Err(info)) => {
                                 // surfacing of a peer reset
-                                if let Some((tp, code)) = s.peer_rst {
-                                    if tp < ev.t && !s.other_cause_before_peer_rst {
+                                if let (Some((tp, code)), Some(te)) = (s.peer_rst, s.peer_rst_effective) {
+                                    if te < ev.t && !s.other_cause_before_peer_rst {
                                         stats.inc("c17.errors_after_peer_reset_judged");
                                         if info.is_reset && (info.reason != Some(code) || !info.is_remote) {
                                             fail(viol, "peer-reset-surfaced-altered".into(), format!("{}: peer sent RST_STREAM({}) on stream {} (read at t={}); {:?} at t={} reports reason {:?} remote={} library={} ({})", e.name(), code, a.sid, tp, a.op, ev.t, info.reason, info.is_remote, info.is_library, info.display));
